@@ -174,11 +174,11 @@ func isLiteral(s string) bool {
 		return false
 	}
 	c := s[0]
-	if c == '{' || c == '[' || c == ' ' || c == '\n' {
+	if c == '{' || c == '[' || c == ' ' || c == '\n' || c == '\t' || c == '\r' {
 		return false
 	}
 	l := s[len(s)-1]
-	return l != ' ' && l != '\n'
+	return l != ' ' && l != '\n' && l != '\t' && l != '\r'
 }
 
 func multiClass(s string) bool {
